@@ -3,12 +3,13 @@ import re, json, os, random
 import xml.etree.ElementTree as ET
 import shellrun, semrun, gen, impl
 
-OBLIGATIONS = ['Yalafi.C14_mapMatch_word', 'Yalafi.C14_assemble_shift', 'Yalafi.C14_assemble_lengths', 'Yalafi.C14_sorted',
+OBLIGATIONS = ['Yalafi.C14_mapMatch_word', 'Yalafi.C14_assemble_shift', 'Yalafi.C14_assemble_skips_blank', 'Yalafi.C14_assemble_nonblank', 'Yalafi.C14_assemble_lengths', 'Yalafi.C14_sorted',
                # position arithmetic of the reports (Model/Reports.lean, correspondence: corr_reports.py)
                'Yalafi.C14_linecol_roundtrip', 'Yalafi.C14_formats_agree', 'Yalafi.C14_jsonPriv_nat', 'Yalafi.C14_html_agrees',
                'Yalafi.C14_html_end_agrees', 'Yalafi.C14_xmlb_bytes', 'Yalafi.C14_xmlb_bytes_end', 'Yalafi.C14_translate_numbers',
                'Yalafi.C14_translate_numbers_none',
-               'Yalafi.C14_shell_assembly', 'Yalafi.C14_line_column_unique', 'Yalafi.C14_run_reported', 'Yalafi.C14_flagged_word_group_e2e', 'Yalafi.C14_copied_run_group', 'Yalafi.C14_copied_run_contiguous', 'Yalafi.C14_copied_run_footnote', 'Yalafi.C14_flagged_word_e2e', 'Yalafi.C14_sorted_e2e', 'Yalafi.C14_runs_sorted', 'Yalafi.C14_flagged_word_e2e_current', 'Yalafi.C14_flagged_word_example_current', 'Yalafi.C14_flagged_word_example', 'Yalafi.C14_flagged_word_example_eval', 'Yalafi.C14_sorted_example_eval', 'Yalafi.C14_flagged_word_group_e2e_current', 'Yalafi.C14_flagged_word_group_example_current', 'Yalafi.C14_flagged_word_group_example_eval']
+               'Yalafi.C14_shell_assembly', 'Yalafi.C14_line_column_unique', 'Yalafi.C14_run_reported', 'Yalafi.C14_flagged_word_group_e2e', 'Yalafi.C14_copied_run_group', 'Yalafi.C14_copied_run_contiguous', 'Yalafi.C14_copied_run_footnote', 'Yalafi.C14_flagged_word_e2e', 'Yalafi.C14_sorted_e2e', 'Yalafi.C14_runs_sorted', 'Yalafi.C14_flagged_word_e2e_current', 'Yalafi.C14_flagged_word_example_current', 'Yalafi.C14_flagged_word_example', 'Yalafi.C14_flagged_word_example_eval', 'Yalafi.C14_sorted_example_eval', 'Yalafi.C14_flagged_word_group_e2e_current', 'Yalafi.C14_flagged_word_group_example_current', 'Yalafi.C14_flagged_word_group_example_eval',
+               'Yalafi.C14_shift_is_text_length', 'Yalafi.C14_submit_split', 'Yalafi.C14_assemble_run', 'Yalafi.C14_ml_run_reported', 'Yalafi.C14_ml_runs_sorted', 'Yalafi.C14_flagged_word_ml_e2e', 'Yalafi.C14_sorted_ml_e2e', 'Yalafi.C14_withAnswers', 'Yalafi.C14_flagged_word_ml_e2e_current', 'Yalafi.C14_flagged_word_ml_example_current', 'Yalafi.C14_flagged_word_ml_example', 'Yalafi.C14_flagged_word_ml_example_eval', 'Yalafi.C14_shell_loop_is_submit']
 
 ONLY = {'c_group', 'c_unknown', 'c_vanish', 'c_ref', 'c_inline_math', 'c_cite', 'c_footnote', 'c_itemize', 'c_env_unknown',
         'c_foreign', 'c_special', 'c_heading'}
